@@ -1162,3 +1162,41 @@ def mon_c14(sc, res):
 
 def mon_c14_all(sc, res):
     return mon_c14(sc, res) + mon_c03(sc, res)
+
+
+# --------------------------------------------------------------------------- wire discipline (C10 on the assembled daemon)
+
+def mon_wire(log):
+    """Per connection: the bytes the (simulated) kernel accepted are the frames the daemon handed to its writer, whole and in
+    order; a frame the writer refused is either absent or - torn - the very last thing on the wire.  Judged on the kernel's
+    side of the buffered writer, so it also sees a frame that was damaged while it waited in the write buffer."""
+    fails = []
+    for n, c in sorted(log.conns.items()):
+        wire = c.out
+        pos = 0
+        torn = False
+        for step, ret, frame in c.sends:
+            if torn:
+                break
+            if ret == 0:
+                have = wire[pos:pos + len(frame)]
+                if have != frame[:len(have)]:
+                    k = next((i for i in range(min(len(have), len(frame))) if have[i] != frame[i]), 0)
+                    fails.append("wire of c%d: byte %d differs from the frames handed to the writer (frame of step %d, offset %d: wire %s, frame %s)" % (
+                        n, pos + k, step, k, have[k:k + 8].hex(), frame[k:k + 8].hex()))
+                    return fails
+                pos += len(have)
+                if len(have) < len(frame):
+                    torn = True     # still queued (or the connection ended): nothing may follow
+            else:
+                rest = wire[pos:]
+                k = 0
+                while k < len(rest) and k < len(frame) and rest[k] == frame[k]:
+                    k += 1
+                if k > 0 and pos + k == len(wire):
+                    pos += k
+                    torn = True
+        if pos != len(wire):
+            fails.append("wire of c%d: %d byte(s) on the wire that are not (the continuation of) a frame handed to the writer: %s" % (
+                n, len(wire) - pos, wire[pos:pos + 12].hex()))
+    return fails[:3]
